@@ -288,6 +288,13 @@ def gen_coords(toppath,
     LOGGER.info("writing output",  type="step")
     command = ' '.join(sys.argv)
     system = topology.convert_to_vermouth_system()
-    vermouth.gmx.gro.write_gro(system, outpath, precision=7,
-                               title=command, box=topology.box)
-    DeferredFileWriter().write()
+    try:
+        vermouth.gmx.gro.write_gro(system, outpath, precision=7,
+                                   title=command, box=topology.box)
+        DeferredFileWriter().write()
+    except BaseException:
+        # a file that did not reach its destination must not stay queued:
+        # the next flush of the writer in this process would put it in
+        # place after all
+        DeferredFileWriter().close()
+        raise
